@@ -315,6 +315,7 @@ func (r *Run) Finish(cov map[string]any, assumptions []string) {
 		}
 	}
 	fmt.Printf("%s %s: violations=%d exhaustive=%v wall=%.1fs\n", r.ID, r.Tier, nv, cov["exhaustive"], time.Since(r.start).Seconds())
+	FlushCoverage()
 	if nv > 0 {
 		os.Exit(1)
 	}
